@@ -296,6 +296,12 @@ func extMaphash(fr *frame, args []value) value {
 		bs = strBytes(args[1])
 	}
 	c := ps.ctx
+	// A seed made during package initialisation (starlark's `var seed = maphash.MakeSeed()`)
+	// is a variable of the init path's term context; every path has its own context, so
+	// re-intern the variable by name here (otherwise it is never declared to the solver).
+	if sv, ok := seed.(sym); ok && sv.t.Op == smt.OVar && sv.t.C != c {
+		seed = sym{c.Var(sv.t.Name, sv.t.Sort), sv.k}
+	}
 	// Uninterpreted function of (seed, length, bytes): one function symbol per length.
 	targs := []*smt.Term{termOf(c, seed)}
 	for _, b := range bs {
